@@ -15,6 +15,7 @@ import TsRsVerif.Model.Attr
 import TsRsVerif.Model.Validity
 import TsRsVerif.Model.Comment
 import TsRsVerif.Model.TreeDerive
+import TsRsVerif.Lemmas.History
 open Lean TsRs
 
 def gs (j : Json) (k : String) : Str :=
@@ -274,6 +275,13 @@ def handle (ops : CharOps) (j : Json) : Json :=
   | "canon_file" => match Merge.canonFile ((gsl j "names").zip (gsl j "texts")) with
     | some s => Json.mkObj [("ok", S s)]
     | none => Json.mkObj [("not_wf", Json.bool true)]
+  | "gen_ok" =>
+    -- is this generated text inside the domain of the history theorems (C05_history_canonical)?
+    let (parts, ok, same) := genTextInDomain (gs j "name") (gs j "text")
+    let dn : Str := match Merge.genParts (gs j "text") with
+      | some (_, decl) => (Merge.declName decl).getD []
+      | none => []
+    Json.mkObj [("parts", Json.bool parts), ("ok", Json.bool ok), ("same_text", Json.bool same), ("decl_name", S dn)]
   | "hist" => runHist j
   | "oracle_member" =>
     -- does the JSON text `json` inhabit the type `ty` under the declarations `decls` (all given as TypeScript text)?
